@@ -1,5 +1,5 @@
 From Coq Require Import Permutation.
-From Verif Require Import Lib.Base Roothash.Pool Roothash.PoolSpec Roothash.PoolProofs Roothash.PoolInv Roothash.Verify Roothash.VerifyProofs Roothash.App Roothash.AppProofs Roothash.EarlyDetect Roothash.Permute Roothash.Evidence Roothash.EvidenceProofs.
+From Verif Require Import Lib.Base Roothash.Pool Roothash.PoolSpec Roothash.PoolProofs Roothash.PoolInv Roothash.Verify Roothash.VerifyProofs Roothash.App Roothash.AppProofs Roothash.EarlyDetect Roothash.Permute Roothash.Evidence Roothash.EvidenceProofs Roothash.Membership Roothash.AppInv Roothash.LivenessProofs.
 
 Theorem finalize_only_if_rule :
   forall (c : committee) (p : pool) (strag : N) (timeout : bool) (p' : pool) (sc : sched_commitment),
@@ -224,8 +224,8 @@ Print Assumptions timeout_never_keeps_waiting.
 
 Theorem suspended_runtime_has_no_armed_timeout :
   forall (prm : rt_params) (bs : list ablock) (round root : N),
-    rs_suspended (app_states prm (new_runtime round root) bs) = true ->
-    rs_next_timeout (app_states prm (new_runtime round root) bs) = TimeoutNever.
+    rs_suspended (app_states prm (new_runtime prm round root) bs) = true ->
+    rs_next_timeout (app_states prm (new_runtime prm round root) bs) = TimeoutNever.
 Proof. exact suspended_runtime_has_no_armed_timeout. Qed.
 Print Assumptions suspended_runtime_has_no_armed_timeout.
 
@@ -356,3 +356,130 @@ Theorem submit_evidence_spec :
     (snd r <> 0 -> fst r = store).
 Proof. exact submit_evidence_spec. Qed.
 Print Assumptions submit_evidence_spec.
+
+(* ---- round 3: the application over arbitrary histories, liveness, membership ---- *)
+
+Theorem normal_block_only_if_rule_history :
+  forall (prm : rt_params) (bs : list ablock) (b : ablock) (round root : N),
+    history_ok round (bs ++ [b]) ->
+    let st := app_states prm (new_runtime prm round root) bs in
+    let st' := fst (app_block prm st b) in
+    let o := snd (app_block prm st b) in
+    fin_count (bo_end o) = 1 -> rs_htype st' = HNormal ->
+    exists c, rs_committee st' = Some c /\ normal_justified prm c st'.
+Proof. exact normal_block_only_if_rule_history. Qed.
+Print Assumptions normal_block_only_if_rule_history.
+
+Theorem app_pool_invariant_history :
+  forall (prm : rt_params) (bs : list ablock) (st : rt_state),
+    pool_ok st -> committee_ok st -> history_ok (rs_round st) bs ->
+    pool_ok (app_states prm st bs) /\ committee_ok (app_states prm st bs).
+Proof. exact app_states_inv. Qed.
+Print Assumptions app_pool_invariant_history.
+
+Theorem failed_round_header :
+  forall (H : Z) (prm : rt_params) (c : committee) (p : pool) (st : rt_state) (timeout : bool)
+         (st' : rt_state) (evs : list app_event),
+    try_finalize H prm c p st timeout = TFOk st' evs ->
+    rs_htype st' = HRoundFailed -> In (EvFinalized (next_round_of st)) evs ->
+    rs_root st' = rs_root st /\ rs_io st' = rp_empty prm /\ rs_msgs st' = rp_empty prm /\
+    rs_prev st' = lookup (rs_round st) (rp_hashes prm) /\ rs_round st' = next_round_of st.
+Proof. exact failed_round_header. Qed.
+Print Assumptions failed_round_header.
+
+Theorem epoch_and_suspend_blocks_keep_state :
+  forall (prm : rt_params) (st : rt_state) (ep : option (option committee)),
+    pool_ok st -> committee_ok st -> rs_round st + 2 < ROUND_BOUND ->
+    (forall c, ep = Some (Some c) -> small_c c) ->
+    let st1 := fst (begin_block prm st ep) in
+    let e := snd (begin_block prm st ep) in
+    pool_ok st1 /\ committee_ok st1 /\ fin_count e <= 1 /\ rs_round st1 = rs_round st + fin_count e /\
+    (fin_count e = 1 -> rs_htype st1 <> HNormal /\ rs_root st1 = rs_root st /\ rs_io st1 = rp_empty prm /\
+                        rs_msgs st1 = rp_empty prm /\ rs_prev st1 = lookup (rs_round st) (rp_hashes prm)).
+Proof. exact begin_block_spec. Qed.
+Print Assumptions epoch_and_suspend_blocks_keep_state.
+
+Theorem rounds_increase_by_one_per_block :
+  forall (prm : rt_params) (bs : list ablock) (st : rt_state),
+    pool_ok st -> committee_ok st -> history_ok (rs_round st) bs ->
+    rs_round (app_states prm st bs) =
+    rs_round st + fold_right (fun o acc => fin_count (bo_begin o) + fin_count (bo_end o) + acc) 0 (app_run prm st bs).
+Proof. exact rounds_increase_by_one_per_block. Qed.
+Print Assumptions rounds_increase_by_one_per_block.
+
+Theorem stale_commit_rejected :
+  forall (H : Z) (prm : rt_params) (st : rt_state) (vcs : list vcommit) (vc : vcommit),
+    In vc vcs -> vc_round vc <> next_round_of st ->
+    snd (fst (executor_commit H prm st vcs)) <> 0 /\ fst (fst (executor_commit H prm st vcs)) = st.
+Proof. exact stale_commit_rejected. Qed.
+Print Assumptions stale_commit_rejected.
+
+Theorem no_stale_commit_after_block :
+  forall (H : Z) (prm : rt_params) (c : committee) (p : pool) (st : rt_state) (timeout : bool)
+         (st' : rt_state) (evs : list app_event) (vcs : list vcommit) (vc : vcommit),
+    round_ok st ->
+    try_finalize H prm c p st timeout = TFOk st' evs -> fin_count evs = 1 ->
+    In vc vcs -> vc_round vc = next_round_of st ->
+    rs_pool st' = Some new_pool /\
+    snd (fst (executor_commit H prm st' vcs)) <> 0 /\ fst (fst (executor_commit H prm st' vcs)) = st'.
+Proof. exact no_stale_commit_after_block. Qed.
+Print Assumptions no_stale_commit_after_block.
+
+Theorem finalize_normal_liveness :
+  forall (prm : rt_params) (c : committee) (s : rt_state) (p2 : pool) (lv : liveness)
+         (sc : sched_commitment) (ec : commitment) (st2 : rt_state) (e2 : list app_event),
+    finalize_normal prm c s p2 lv sc ec = Some (st2, e2) -> live_ok c lv ->
+    exists lv' good bad,
+      rs_live st2 = Some lv' /\ rs_results st2 = (good, bad) /\ live_ok c lv' /\
+      lv_total lv' = lv_total lv + 1 /\
+      lsum (lv_fin lv') + lsum (lv_miss lv') = lsum (lv_fin lv) + lsum (lv_miss lv) + 1 /\
+      lsum (lv_live lv') = lsum (lv_live lv) + N.of_nat (length good) /\
+      (forall n, is_member c n = true -> aget n (sc_votes sc) = Some (Some (ec_vote ec)) -> In n good) /\
+      (forall n, aget n (sc_votes sc) = Some (Some (ec_vote ec)) -> ~ In n bad) /\
+      (forall n, In n good -> is_member c n = true /\ aget n (sc_votes sc) = Some (Some (ec_vote ec))) /\
+      (forall n, In n bad -> is_member c n = true /\
+                             exists v, aget n (sc_votes sc) = Some (Some v) /\ v <> ec_vote ec).
+Proof. exact finalize_normal_liveness. Qed.
+Print Assumptions finalize_normal_liveness.
+
+Theorem fail_round_liveness :
+  forall (prm : rt_params) (c : committee) (s : rt_state) (p2 : pool) (lv : liveness)
+         (st2 : rt_state) (e2 : list app_event),
+    fail_round prm c s p2 lv = Some (st2, e2) -> live_ok c lv ->
+    exists lv', rs_live st2 = Some lv' /\ live_ok c lv' /\
+      lv_total lv' = lv_total lv /\ lv_live lv' = lv_live lv /\ lv_fin lv' = lv_fin lv /\
+      lsum (lv_miss lv') = lsum (lv_miss lv) + 1.
+Proof. exact fail_round_liveness. Qed.
+Print Assumptions fail_round_liveness.
+
+Theorem liveness_consistent_history :
+  forall (prm : rt_params) (bs : list ablock) (round root : N),
+    live_inv (app_states prm (new_runtime prm round root) bs).
+Proof. exact liveness_consistent_history. Qed.
+Print Assumptions liveness_consistent_history.
+
+Theorem add_checks_membership_and_role :
+  forall (c : committee) (p : pool) (ec : commitment) (p1 : pool),
+    add c p ec = (p1, AOk) ->
+    (disc p = false -> is_member c (ec_node ec) = true) /\
+    (disc p = true -> is_backup_worker c (ec_node ec) = true) /\
+    is_member c (ec_node ec) = true /\
+    exists r, scheduler_rank c (ec_round ec) (ec_sched ec) = Some r /\
+              In (ec_sched ec) (primary_nodes c) /\ r <= hr p /\ (disc p = true -> r = hr p) /\
+              exists sc, aget r (scs p1) = Some sc /\
+                         aget (ec_node ec) (sc_votes sc) = Some (if ec_fail ec then None else Some (ec_vote ec)).
+Proof. exact add_ok_roles. Qed.
+Print Assumptions add_checks_membership_and_role.
+
+Theorem only_members_vote_history :
+  forall (c : committee) (ops : list op) (r : N) (sc : sched_commitment) (n : N) (v : option N),
+    aget r (scs (run c ops new_pool)) = Some sc -> aget n (sc_votes sc) = Some v -> is_member c n = true.
+Proof. exact votes_members_reachable. Qed.
+Print Assumptions only_members_vote_history.
+
+Theorem executor_commit_is_the_only_writer_and_checks :
+  forall (H : Z) (prm : rt_params) (st : rt_state) (vcs : list vcommit),
+    pool_ok st -> committee_ok st -> round_ok st ->
+    pool_ok (fst (fst (executor_commit H prm st vcs))).
+Proof. exact executor_commit_pool_ok. Qed.
+Print Assumptions executor_commit_is_the_only_writer_and_checks.
